@@ -1,0 +1,17 @@
+//go:build verif
+
+package outlier
+
+import "sort"
+
+// VerifNodeAddresses returns the node addresses currently known for a resource (verification builds only).
+func VerifNodeAddresses(resource string) []string {
+	updateMux.RLock()
+	defer updateMux.RUnlock()
+	var out []string
+	for a := range nodeBreakers[resource] {
+		out = append(out, a)
+	}
+	sort.Strings(out)
+	return out
+}
